@@ -272,7 +272,7 @@ Fixpoint dij_loop (fuel : nat) (g : graph) (t : nat)
       | None => RNone
       | Some ((cost, node), heap') =>
           if node =? t then
-            match recon (S (length parent)) (fun i => alookup i parent) t [] with
+            match recon (S (S (gn g))) (fun i => alookup i parent) t [] with
             | Some p => RPath p cost
             | None => RFuel
             end
